@@ -248,7 +248,7 @@ def gen_value(ct, rnd, depth=0):
     if c == 'o':
         return rnd.choice(['/', '/a', '/a/b_c', '/org/freedesktop/DBus', '/_/0/A9'])
     if c == 'g':
-        return rnd.choice(['', 'i', 'a{sv}', '(ii)s', 'a' * 31 + 'y', 'i' * 255 if depth == 0 else 'ii'])
+        return rnd.choice(['', 'i', 'a{sv}', '(ii)s', 'a' * 31 + 'y', 'i' * 255 if depth == 0 else 'ii', 'h', 'ah', 'a{sh}', 'ybnqiuxtdsogvh'])
     if c == 'a':
         et = ct[1:]
         n = rnd.choice([0, 0, 1, 2, 3, 3, 17 if depth == 0 else 2])
